@@ -5,6 +5,7 @@ package main
 import (
 	"fmt"
 	"go/ast"
+	"go/constant"
 	"go/token"
 	"go/types"
 	"regexp"
@@ -23,6 +24,7 @@ type tierModel struct {
 	regex, matches, params   *types.Var
 	appendRoute, matchFn     *ssa.Function
 	parse, matchRegex        *ssa.Function
+	scanFns                  map[*ssa.Function]bool // matchRegex and wrappers that return its verdict unchanged
 	cacheDyn, copyWithParams *ssa.Function
 	quick                    *ssa.Function
 }
@@ -43,8 +45,51 @@ func newTierModel(w *World) *tierModel {
 	m.matchFn = w.Fn("rux", "Router.match")
 	m.parse = w.Fn("rux", "Router.parseParamRoute")
 	m.matchRegex = w.Fn("rux", "Route.matchRegex")
+	m.scanFns = map[*ssa.Function]bool{m.matchRegex: true}
+	// wrappers: a method that returns either "no match" or exactly what a scan function returns for its own
+	// receiver and path (Route.match adds the literal-prefix pre-filter in front of matchRegex)
+	for changed := true; changed; {
+		changed = false
+		for _, f := range w.Funcs {
+			if m.scanFns[f] || f.Parent() != nil || len(f.Params) != 2 || f.Signature.Results().Len() != 2 || !isNamedPtr(f.Params[0].Type(), w.Named("rux", "Route")) {
+				continue
+			}
+			ok, nCall := true, 0
+			eachInstr(f, func(in ssa.Instruction) {
+				ret, isRet := in.(*ssa.Return)
+				if !isRet {
+					return
+				}
+				if len(ret.Results) != 2 {
+					ok = false
+					return
+				}
+				if isNilConst(ret.Results[0]) {
+					if k, isC := ret.Results[1].(*ssa.Const); isC && k.Value != nil && k.Value.Kind() == constant.Bool && !constant.BoolVal(k.Value) {
+						return
+					}
+				}
+				e0, ok0 := ret.Results[0].(*ssa.Extract)
+				e1, ok1 := ret.Results[1].(*ssa.Extract)
+				if !ok0 || !ok1 || e0.Tuple != e1.Tuple || e0.Index != 0 || e1.Index != 1 {
+					ok = false
+					return
+				}
+				c, isCall := e0.Tuple.(*ssa.Call)
+				if !isCall || !m.scanFns[staticCallee(c)] || c.Call.Args[0] != ssa.Value(f.Params[0]) || c.Call.Args[1] != ssa.Value(f.Params[1]) {
+					ok = false
+					return
+				}
+				nCall++
+			})
+			if ok && nCall > 0 {
+				m.scanFns[f] = true
+				changed = true
+			}
+		}
+	}
 	m.cacheDyn = w.FnOpt("rux", "Router.cacheDynamicRoute") // optional: the store may be written in line
-	m.copyWithParams = w.Fn("rux", "Route.copyWithParams")
+	m.copyWithParams = w.FnOpt("rux", "Route.copyWithParams") // optional: the copy may be written where it is used
 	m.quick = w.Fn("rux", "Router.QuickMatch")
 	return m
 }
@@ -369,6 +414,7 @@ func ruleC01Tiers(r *Run) {
 			tiers = append(tiers, tier{"cache", lCache})
 		}
 		tiers = append(tiers, tier{"first-segment", lReg}, tier{"residual", lIrr})
+		routeMatch := w.FnOpt("rux", "Route.match")
 		for ti := 0; ti+1 < len(tiers); ti++ {
 			t := tiers[ti]
 			later := map[ssa.Instruction]bool{}
@@ -387,28 +433,43 @@ func ruleC01Tiers(r *Run) {
 					continue
 				}
 				reached := false
-				var regexOK []ssa.Value
+				type try struct {
+					ok   ssa.Value
+					recv string
+				}
+				var tries []try
 				for _, x := range fp.instrs {
 					if later[x] {
 						reached = true
 					}
-					if c, isC := x.(*ssa.Call); isC && staticCallee(c) == m.matchRegex {
-						regexOK = append(regexOK, extractOf(c, 1))
+					if c, isC := x.(*ssa.Call); isC && (m.scanFns[staticCallee(c)] || (routeMatch != nil && staticCallee(c) == routeMatch)) {
+						tries = append(tries, try{extractOf(c, 1), canonAlong(c.Call.Args[0], fp.pc.pred)})
 					}
 				}
 				if reached {
 					continue
 				}
+				// a hit: the route this path returns is known to be non-nil — by this tier's comma-ok, by a
+				// successful match of exactly that route, or by an explicit non-nil test of it
+				var rv ssa.Value
+				if len(fp.ret.Results) > 0 {
+					rv = resolvePhi(fp.ret.Results[0], fp.pc)
+				}
 				hit := false
 				for _, d := range fp.pc.decs {
-					if d.If == nil || !d.Truth {
+					if d.If == nil {
 						continue
 					}
-					if okv != nil && d.Cond == okv && (t.name == "static" || t.name == "cache") {
+					if d.Truth && okv != nil && d.Cond == okv && (t.name == "static" || t.name == "cache") {
 						hit = true
 					}
-					for _, ro := range regexOK {
-						if ro != nil && d.Cond == ro {
+					for _, tr := range tries {
+						if d.Truth && tr.ok != nil && d.Cond == tr.ok && rv != nil && tr.recv == canonAlong(rv, fp.pc.pred) {
+							hit = true
+						}
+					}
+					if rv != nil {
+						if is, pol := nonNilTestP(d.Cond, rv, fp.pc); is && pol == d.Truth {
 							hit = true
 						}
 					}
@@ -423,8 +484,11 @@ func ruleC01Tiers(r *Run) {
 		}
 	}
 	// scans: first regexp match wins, ascending registration order
-	calls := callsToFn(mf, m.matchRegex)
-	r.Check(rule, "(*Router).match:scan sites", mf.Pos(), len(calls) == 2, fmt.Sprintf("%d matchRegex call sites (one per dynamic tier)", len(calls)))
+	calls := callsIn(mf, func(c ssa.CallInstruction) bool {
+		_, plain := c.(*ssa.Call)
+		return plain && m.scanFns[staticCallee(c)]
+	})
+	r.Check(rule, "(*Router).match:scan sites", mf.Pos(), len(calls) == 2, fmt.Sprintf("%d regexp-match call sites (one per dynamic tier)", len(calls)))
 	for i, c := range calls {
 		in := c.(ssa.Instruction)
 		name := fmt.Sprintf("(*Router).match:scan#%d", i+1)
@@ -469,7 +533,7 @@ func ruleC01Tiers(r *Run) {
 			succ = complete && len(paths) > 0
 			for _, fp := range paths {
 				for _, x := range fp.instrs {
-					if cc, isCall := x.(*ssa.Call); isCall && staticCallee(cc) == m.matchRegex {
+					if cc, isCall := x.(*ssa.Call); isCall && m.scanFns[staticCallee(cc)] {
 						succ = false
 					}
 				}
@@ -676,6 +740,70 @@ func ruleC01Anchor(r *Run) {
 
 // ---------------------------------------------------------------------------
 // C02
+
+// C02-KEYS: the parameter map has an entry for every variable of the route, also for one in an
+// optional part that took no part in the match (its value is then ""): in matchRegex the store into
+// the result map is executed on every iteration of the loop over the submatches / variable names.
+func ruleC02Keys(r *Run) {
+	w := r.W
+	rule := "C02-KEYS"
+	r.Floor(rule, 1)
+	m := newTierModel(w)
+	mr := m.matchRegex
+	n := 0
+	eachInstr(mr, func(in ssa.Instruction) {
+		mu, ok := in.(*ssa.MapUpdate)
+		if !ok || !types.Identical(mu.Map.Type(), w.Named("rux", "Params")) {
+			return
+		}
+		n++
+		// the loop the update sits in
+		ln := loopNest(mr)
+		var header *ssa.BasicBlock
+		for h := range ln[in.Block()] {
+			if header == nil || header.Dominates(h) {
+				header = h // innermost
+			}
+		}
+		if header == nil {
+			r.Check(rule, fmt.Sprintf("(*Route).matchRegex:param store#%d", n), w.InstrPos(in), false, "the parameter map is not filled in a loop over the route's variables")
+			return
+		}
+		// one iteration: from each body successor of the header back to the header, every path passes the update
+		okAll := true
+		for _, s := range header.Succs {
+			if !ln[s][header] {
+				continue
+			}
+			paths, complete := enumPathsGen(mr, s, nil, header, 2000)
+			if !complete {
+				okAll = false
+			}
+			for _, p := range paths {
+				hit := false
+				for _, b := range p.blocks {
+					for _, x := range b.Instrs {
+						if x == in {
+							hit = true
+						}
+					}
+				}
+				last := p.blocks[len(p.blocks)-1]
+				if last != header {
+					continue // path leaves the loop (return)
+				}
+				if !hit {
+					okAll = false
+				}
+			}
+		}
+		// keyed by a variable name of the route
+		keyOK := flowsFromDeep(mu.Key, func(x ssa.Value) bool { return isLoadOfField(x, m.matches) })
+		r.Check(rule, fmt.Sprintf("(*Route).matchRegex:param store#%d", n), w.InstrPos(in), okAll && keyOK,
+			map[bool]string{true: "every iteration stores an entry under the variable's name: the key set of Params is exactly the route's variable list", false: "an iteration can skip the store (or the key is not a variable name of the route): a variable in an unmatched optional part is missing from Params instead of being \"\""}[okAll && keyOK])
+	})
+	r.Exists(rule, "(*Route).matchRegex:param stores", mr.Pos(), n >= 1, fmt.Sprintf("%d store(s) into the result Params map", n))
+}
 
 func ruleC02Align(r *Run) {
 	w := r.W
@@ -1009,14 +1137,15 @@ func ruleC02Cache(rule string) func(r *Run) {
 		r.Floor(rule, 5)
 		m := newTierModel(w)
 		// copyWithParams stores its parameter into .params
-		cw := m.copyWithParams
 		okP := false
-		for _, st := range storesToField(cw, m.params) {
-			if st.Val == ssa.Value(cw.Params[1]) {
+		var cpos token.Pos
+		for _, rc := range findRouteCopies(w, m) {
+			cpos = rc.fn.Pos()
+			if rc.ps != nil && (m.copyWithParams == nil || rc.fn != m.copyWithParams || rc.ps == ssa.Value(rc.fn.Params[1])) {
 				okP = true
 			}
 		}
-		r.Check(rule, "(*Route).copyWithParams:params", cw.Pos(), okP, "the cached copy carries the parameters it was given")
+		r.Check(rule, "(*Route).copyWithParams:params", cpos, okP, "the cached copy carries the parameters it was given")
 		// where match fills the cache: through the wrapper cacheDynamicRoute or with Set in line
 		mf := m.matchFn
 		sites, problems := cacheStoreSites(w, m)
@@ -1054,7 +1183,7 @@ func ruleC02Cache(rule string) func(r *Run) {
 			// ps comes from the matchRegex call on that same route (decided per path when the pair travels through merged locals)
 			prov := func(psV, rtV ssa.Value) bool {
 				if ex, isEx := psV.(*ssa.Extract); isEx && ex.Index == 0 {
-					if mc, isC := ex.Tuple.(*ssa.Call); isC && staticCallee(mc) == m.matchRegex && canon(mc.Call.Args[0]) == canon(rtV) {
+					if mc, isC := ex.Tuple.(*ssa.Call); isC && m.scanFns[staticCallee(mc)] && canon(mc.Call.Args[0]) == canon(rtV) {
 						return true
 					}
 				}
@@ -1144,11 +1273,11 @@ func init() {
 	register(&property{
 		Meta: propertyMeta{
 			ID:          "C02",
-			Explanation: "Positional alignment 'i-th capture group <-> i-th variable name' (not the substring equality): (C02-ALIGN) on every path through one iteration of the variable loop of parseParamRoute exactly one name is appended to Route.matches and exactly one capture group '(' + v + ')' is appended for the same (n, v) that goodRegexString checked. (C02-GROUPS) every store of a compiled pattern is followed on all paths by a registration-time panic unless regex.NumSubexp() == len(route.matches), which discharges the index r.matches[i] in matchRegex for all inputs. (C02-WRITERS) who-may-write Route.matches and Context.Params; Params is the second result of the one QuickMatch call whose first result is the dispatched route. (C02-CACHE) the cached copy carries exactly the pair the miss path returned; a hit returns (v, v.params); static routes return nil parameters.",
+			Explanation: "Positional alignment 'i-th capture group <-> i-th variable name' (not the substring equality): (C02-ALIGN) on every path through one iteration of the variable loop of parseParamRoute exactly one name is appended to Route.matches and exactly one capture group '(' + v + ')' is appended for the same (n, v) that goodRegexString checked. (C02-KEYS) in matchRegex every iteration of the loop over the submatches stores an entry keyed by a variable name, so the key set of Params is the route's variable list (a variable of an unmatched optional part maps to \"\"). (C02-GROUPS) every store of a compiled pattern is followed on all paths by a registration-time panic unless regex.NumSubexp() == len(route.matches), which discharges the index r.matches[i] in matchRegex for all inputs. (C02-WRITERS) who-may-write Route.matches and Context.Params; Params is the second result of the one QuickMatch call whose first result is the dispatched route. (C02-CACHE) the cached copy carries exactly the pair the miss path returned; a hit returns (v, v.params); static routes return nil parameters.",
 			NotDecided:  []string{"values equal the path substrings; values satisfy the variable's regex; empty string for absent optional parts (run-time regexp behaviour)"},
 			Assumptions: []string{"regexp.FindAllStringSubmatch returns 1+NumSubexp entries per match (documented)"},
 		},
-		Rules: []ruleFn{{"C02-ALIGN", ruleC02Align}, {"C02-GROUPS", ruleC02Groups}, {"C02-WRITERS", ruleC02Writers}, {"C02-CACHE", ruleC02Cache("C02-CACHE")}, {"C07-NODE", ruleCacheStruct("C07")}, {"C07-KEY", ruleCacheKey("C07-KEY")}, {"C01-ANCHOR", ruleC01Anchor}, {"C01-GRAMMAR", ruleC01Grammar}},
+		Rules: []ruleFn{{"C02-ALIGN", ruleC02Align}, {"C02-KEYS", ruleC02Keys}, {"C02-GROUPS", ruleC02Groups}, {"C02-WRITERS", ruleC02Writers}, {"C02-CACHE", ruleC02Cache("C02-CACHE")}, {"C07-NODE", ruleCacheStruct("C07")}, {"C07-KEY", ruleCacheKey("C07-KEY")}, {"C01-ANCHOR", ruleC01Anchor}, {"C01-GRAMMAR", ruleC01Grammar}},
 	})
 }
 
@@ -1249,8 +1378,10 @@ func ruleC01Grammar(r *Run) {
 	okDef := false
 	if ggv := w.FnOpt("rux", "getGlobalVar"); ggv != nil {
 		for _, c := range callsToFn(pf, ggv) {
-			if s, ok := constString(c.Common().Args[1]); ok && s == am {
-				okDef = true
+			if a := c.Common().Args; len(a) > 1 {
+				if s, ok := constString(a[1]); ok && s == am {
+					okDef = true
+				}
 			}
 		}
 	}
@@ -1267,10 +1398,37 @@ func ruleC01Grammar(r *Run) {
 				if s, okc := constString(lf); okc && s == am {
 					hasDef = true
 				}
+				isGV := func(v ssa.Value) bool {
+					ex, isEx := v.(*ssa.Extract)
+					if !isEx || ex.Index != 0 {
+						return false
+					}
+					lk, isLk := ex.Tuple.(*ssa.Lookup)
+					if !isLk || !lk.CommaOk {
+						return false
+					}
+					ld, isLd := lk.X.(*ssa.UnOp)
+					return isLd && ld.Op == token.MUL && ld.X == ssa.Value(gvar)
+				}
+				if isGV(lf) {
+					hasLookup = true
+				}
+				// ... or through a helper that returns (globalVars[name], ok)
 				if ex, isEx := lf.(*ssa.Extract); isEx && ex.Index == 0 {
-					if lk, isLk := ex.Tuple.(*ssa.Lookup); isLk && lk.CommaOk {
-						if ld, isLd := lk.X.(*ssa.UnOp); isLd && ld.Op == token.MUL && ld.X == ssa.Value(gvar) {
-							hasLookup = true
+					if c, isCall := ex.Tuple.(*ssa.Call); isCall {
+						if sc := staticCallee(c); sc != nil && w.InModule(sc) {
+							all, n := true, 0
+							eachInstr(sc, func(in ssa.Instruction) {
+								if ret, isRet := in.(*ssa.Return); isRet && len(ret.Results) == 2 {
+									n++
+									if !isGV(ret.Results[0]) {
+										all = false
+									}
+								}
+							})
+							if all && n > 0 {
+								hasLookup = true
+							}
 						}
 					}
 				}
@@ -1353,6 +1511,55 @@ func ruleC01Grammar(r *Run) {
 			}
 		}
 	}
+	// the same translation spelled as chained ReplaceAll calls: ReplaceAll(ReplaceAll(path, "[", open), "]", close)
+	var chained [][4]string
+	for _, oc := range callsIn(cpo, func(c ssa.CallInstruction) bool {
+		n := calleeName(c)
+		return n == "strings.ReplaceAll" || n == "strings.Replace"
+	}) {
+		a := oc.Common().Args
+		ic, isCall := a[0].(*ssa.Call)
+		if !isCall || (calleeName(ic) != "strings.ReplaceAll" && calleeName(ic) != "strings.Replace") {
+			continue
+		}
+		full := func(c ssa.CallInstruction) bool {
+			if calleeName(c) == "strings.ReplaceAll" {
+				return true
+			}
+			n, okn := constInt(c.Common().Args[3])
+			return okn && n < 0
+		}
+		if !full(oc) || !full(ic) {
+			continue
+		}
+		f1, ok1 := constString(ic.Call.Args[1])
+		t1, ok2 := constString(ic.Call.Args[2])
+		f2, ok3 := constString(a[1])
+		t2, ok4 := constString(a[2])
+		// the second replacement must not touch what the first one inserted
+		if ok1 && ok2 && ok3 && ok4 && !strings.Contains(t1, f2) {
+			chained = append(chained, [4]string{f1, t1, f2, t2})
+		}
+	}
+	checkPairs := func(s [4]string) bool {
+		if s[0] == "]" && s[2] == "[" {
+			s = [4]string{s[2], s[3], s[0], s[1]}
+		}
+		if s[0] != "[" || s[2] != "]" {
+			return false
+		}
+		re, err := syntax.Parse("x"+s[1]+"y"+s[3], syntax.Perl)
+		if err != nil || re.MaxCap() != 0 {
+			return false
+		}
+		cre, err2 := regexp.Compile("^(?:" + "x" + s[1] + "y" + s[3] + ")$")
+		return err2 == nil && cre.MatchString("x") && cre.MatchString("xy") && !cre.MatchString("xyy") && !cre.MatchString("") && !cre.MatchString("y")
+	}
+	for _, ch := range chained {
+		if checkPairs(ch) {
+			okO = true
+		}
+	}
 	for _, c := range replacers {
 		el := litElems(c.Common().Args[0])
 		if len(el) == 4 {
@@ -1401,12 +1608,18 @@ func cacheStoreSites(w *World, m *tierModel) ([]cacheSite, []cacheProblem) {
 	cd := m.cacheDyn
 	var sites []cacheSite
 	var problems []cacheProblem
+	copies := findRouteCopies(w, m)
 	pair := func(v ssa.Value) (route, ps ssa.Value) {
-		cc, ok := v.(*ssa.Call)
-		if !ok || staticCallee(cc) != cw || len(cc.Call.Args) != 2 {
-			return nil, nil
+		if cc, ok := v.(*ssa.Call); ok && cw != nil && staticCallee(cc) == cw && len(cc.Call.Args) == 2 {
+			return cc.Call.Args[0], cc.Call.Args[1]
 		}
-		return cc.Call.Args[0], cc.Call.Args[1]
+		// the copy written in line: the stored value is a fresh Route copied from the matched one
+		for _, rc := range copies {
+			if v == ssa.Value(rc.cell) {
+				return rc.src, rc.ps
+			}
+		}
+		return nil, nil
 	}
 	for _, f := range w.Funcs {
 		if cd != nil && f == cd {
@@ -1454,4 +1667,57 @@ func cacheStoreSites(w *World, m *tierModel) ([]cacheSite, []cacheProblem) {
 		}
 	}
 	return sites, problems
+}
+
+// routeCopy: a fresh Route value initialised from another route (whole-struct copy or the field-wise
+// spelling) — the copy that goes into the cache. src is the route copied from, ps the value stored
+// into the copy's params field (nil if none).
+type routeCopy struct {
+	fn      *ssa.Function
+	cell    *ssa.Alloc
+	src, ps ssa.Value
+	wholeSt ssa.Instruction
+}
+
+func findRouteCopies(w *World, m *tierModel) []routeCopy {
+	routeT := w.Named("rux", "Route")
+	var out []routeCopy
+	for _, f := range w.Funcs {
+		if f.Pkg == nil || f.Pkg.Pkg.Path() != modPath {
+			continue
+		}
+		eachInstr(f, func(in ssa.Instruction) {
+			cell, ok := in.(*ssa.Alloc)
+			if !ok || !types.Identical(cell.Type().(*types.Pointer).Elem(), routeT) {
+				return
+			}
+			rc := routeCopy{fn: f, cell: cell}
+			for _, ref := range *cell.Referrers() {
+				switch x := ref.(type) {
+				case *ssa.Store:
+					if x.Addr == ssa.Value(cell) {
+						if ld, ok := x.Val.(*ssa.UnOp); ok && ld.Op == token.MUL && isNamedPtr(ld.X.Type(), routeT) {
+							rc.src, rc.wholeSt = ld.X, x
+						}
+					}
+				case *ssa.FieldAddr:
+					for _, r2 := range *x.Referrers() {
+						st, ok := r2.(*ssa.Store)
+						if !ok || st.Addr != ssa.Value(x) {
+							continue
+						}
+						if fieldVar(x.X.Type(), x.Field) == m.params {
+							rc.ps = st.Val
+						} else if constructionCopy(st) && rc.src == nil {
+							rc.src = unwrapAddr(st.Val.(*ssa.UnOp).X).Base
+						}
+					}
+				}
+			}
+			if rc.src != nil {
+				out = append(out, rc)
+			}
+		})
+	}
+	return out
 }
